@@ -65,6 +65,20 @@ func (p *ProofU) Verify(pk *gabikeys.PublicKey, context, nonce *big.Int) bool {
 	return p.VerifyWithChallenge(pk, createChallenge(context, nonce, contrib, false))
 }
 
+// validate checks that the proof is structurally sound with respect to the public key, so that
+// the verification code can safely dereference its fields and index the bases of the public key.
+func (p *ProofU) validate(pk *gabikeys.PublicKey) error {
+	if p == nil || p.U == nil || p.C == nil || p.VPrimeResponse == nil || p.SResponse == nil {
+		return errors.New("incomplete ProofU")
+	}
+	for i, response := range p.MUserResponses {
+		if i < 0 || i >= len(pk.R) || response == nil {
+			return errors.New("invalid random blind attribute response in ProofU")
+		}
+	}
+	return nil
+}
+
 // correctResponseSizes checks the sizes of the elements in the ProofU proof.
 func (p *ProofU) correctResponseSizes(pk *gabikeys.PublicKey) bool {
 	minimum := big.NewInt(0)
@@ -76,6 +90,9 @@ func (p *ProofU) correctResponseSizes(pk *gabikeys.PublicKey) bool {
 
 // VerifyWithChallenge verifies whether the proof is correct.
 func (p *ProofU) VerifyWithChallenge(pk *gabikeys.PublicKey, reconstructedChallenge *big.Int) bool {
+	if p.validate(pk) != nil || reconstructedChallenge == nil {
+		return false
+	}
 	return p.correctResponseSizes(pk) && p.C.Cmp(reconstructedChallenge) == 0
 }
 
@@ -124,6 +141,9 @@ func (p *ProofU) Challenge() *big.Int {
 // ChallengeContribution returns the contribution of this proof to the
 // challenge.
 func (p *ProofU) ChallengeContribution(pk *gabikeys.PublicKey) ([]*big.Int, error) {
+	if err := p.validate(pk); err != nil {
+		return nil, err
+	}
 	Ucommit, err := p.reconstructUcommit(pk)
 	if err != nil {
 		return nil, err
@@ -190,6 +210,35 @@ func (p *ProofD) reconstructRangeProofStructures(pk *gabikeys.PublicKey) error {
 			}
 			p.cachedRangeStructures[index] = append(p.cachedRangeStructures[index], s)
 		}
+	}
+	return nil
+}
+
+// validate checks that the proof is structurally sound with respect to the public key, so that
+// the verification code can safely dereference its fields and index the bases of the public key.
+func (p *ProofD) validate(pk *gabikeys.PublicKey) error {
+	if p == nil || p.C == nil || p.A == nil || p.EResponse == nil || p.VResponse == nil {
+		return errors.New("incomplete ProofD")
+	}
+	for i, response := range p.AResponses {
+		if i < 0 || i >= len(pk.R) || response == nil {
+			return errors.New("invalid attribute response in ProofD")
+		}
+	}
+	for i, attribute := range p.ADisclosed {
+		if i < 0 || i >= len(pk.R) || attribute == nil {
+			return errors.New("invalid disclosed attribute in ProofD")
+		}
+	}
+	for _, proofs := range p.RangeProofs {
+		for _, proof := range proofs {
+			if proof == nil {
+				return errors.New("missing range proof in ProofD")
+			}
+		}
+	}
+	if p.NonRevocationProof != nil && !p.NonRevocationProof.VerifyStructure() {
+		return errors.New("incomplete nonrevocation proof in ProofD")
 	}
 	return nil
 }
@@ -276,6 +325,9 @@ func (p *ProofD) HasNonRevocationProof() bool {
 // VerifyWithChallenge verifies the proof against the given public key and the provided
 // reconstructed challenge.
 func (p *ProofD) VerifyWithChallenge(pk *gabikeys.PublicKey, reconstructedChallenge *big.Int) bool {
+	if p.validate(pk) != nil || reconstructedChallenge == nil {
+		return false
+	}
 	var notrevoked bool
 	// Validate non-revocation
 	if p.HasNonRevocationProof() {
@@ -297,6 +349,9 @@ func (p *ProofD) VerifyWithChallenge(pk *gabikeys.PublicKey, reconstructedChalle
 // ChallengeContribution returns the contribution of this proof to the
 // challenge.
 func (p *ProofD) ChallengeContribution(pk *gabikeys.PublicKey) ([]*big.Int, error) {
+	if err := p.validate(pk); err != nil {
+		return nil, err
+	}
 	z, err := p.reconstructZ(pk)
 	if err != nil {
 		return nil, errors.WrapPrefix(err, "Could not reconstruct Z", 0)
